@@ -112,15 +112,34 @@ def one(job):
     sb = clirun.Sandbox("c16")
     try:
         argv, roots, view_m, view_l = [], [], [], []
-        for i in range(nmodels):
-            samples = gen.Gen(r.randrange(10 ** 9), datetime=(o["rn"] == RN6)).samples(depth=2, nmax=4)
-            files, a, args = plan(r, samples, i)
-            for n, t in files.items():
-                sb.write(n, t)
-            argv += a
-            roots.append((f"Model{i}", samples))
-            for via, lk, docs in args:
-                (view_m if via == "m" else view_l).append((f"Model{i}", lk, docs))
+        shared = nmodels == 2 and r.random() < 0.5
+        if shared:
+            # one file reached by several arguments with DIFFERENT lookups (and once more with the same lookup)
+            parts = [gen.Gen(r.randrange(10 ** 9), datetime=(o["rn"] == RN6)).samples(depth=2, nmax=3) for _ in range(2)]
+            doc = {"first": parts[0], "second": {"deep": parts[1]}}
+            sb.write("shared.json", json.dumps(doc))
+            order = [("Model0", "first"), ("Model1", "second.deep")]
+            if r.random() < 0.5:
+                order.append(("Model0", "second.deep"))
+            if r.random() < 0.3:
+                order.append(("Model1", "second.deep"))
+            for name, lk in order:
+                if r.random() < 0.3:
+                    argv += ["-l", name, lk, "shared.json"]
+                    view_l.append((name, lk, [doc]))
+                else:
+                    argv += ["-m", name, lk, r.choice(["shared.json", "share?.json", "./shared.json"])]
+                    view_m.append((name, lk, [doc]))
+        else:
+            for i in range(nmodels):
+                samples = gen.Gen(r.randrange(10 ** 9), datetime=(o["rn"] == RN6)).samples(depth=2, nmax=4)
+                files, a, args = plan(r, samples, i)
+                for n, t in files.items():
+                    sb.write(n, t)
+                argv += a
+                roots.append((f"Model{i}", samples))
+                for via, lk, docs in args:
+                    (view_m if via == "m" else view_l).append((f"Model{i}", lk, docs))
         # the code concatenates every -m before every -l: the expected sample order follows that
         expect = {}
         for via in ("m", "l"):
